@@ -88,6 +88,28 @@ int main(int argc, char **argv)
 #elif TMPL_SHAPE == 5
     bool r = FN((bool)(a & 1));
     if (mode <= 1 && r != (bool)(TMPL_SPEC1((bool)(a & 1)))) return bad("result == spec");
+#elif TMPL_SHAPE == 6
+    /* string == / != : the witness strings arrive as hex of their buffers (last byte NUL); spec = same length and same bytes */
+    char sa[64] = {0}, sb[64] = {0};
+    if (argc < 7) return 2;
+    for (size_t k = 0; k + 1 < strlen(argv[5]) && k / 2 < 63; k += 2) { unsigned v; sscanf(argv[5] + k, "%2x", &v); sa[k / 2] = (char)v; }
+    for (size_t k = 0; k + 1 < strlen(argv[6]) && k / 2 < 63; k += 2) { unsigned v; sscanf(argv[6] + k, "%2x", &v); sb[k / 2] = (char)v; }
+    size_t la = 0, lb = 0; while (sa[la]) la++; while (sb[lb]) lb++;
+    int same = (la == lb); for (size_t k = 0; same && k < la; k++) if (sa[k] != sb[k]) same = 0;
+    bool r = FN(sa, sb);
+    printf("strings %s / %s: lengths %zu / %zu, content-equal %d, native result %d\n", argv[5], argv[6], la, lb, same, (int)r);
+    if (mode <= 1 && r != (bool)(same ? TMPL_SPEC2(0, 0) : !TMPL_SPEC2(0, 0))) return bad("result == (same length and same bytes)");
+#elif TMPL_SHAPE == 7 || TMPL_SHAPE == 8
+    double da, db; memcpy(&da, &a, 8); memcpy(&db, &b, 8);        /* the witness values are bit patterns */
+    printf("operands %a %a\n", da, db);
+#if TMPL_SHAPE == 7
+    double r = FN(da, db), sp = TMPL_SPEC2(da, db);
+    printf("native result %a   C operation %a\n", r, sp);
+    if (mode <= 1 && memcmp(&r, &sp, 8) != 0 && !(r != r && sp != sp)) return bad("bit pattern of the result == C double operation on (a, b)");
+#else
+    bool r = FN(da, db);
+    if (mode <= 1 && r != (bool)(TMPL_SPEC2(da, db))) return bad("result == C double comparison on (a, b)");
+#endif
 #elif TMPL_SHAPE >= 10
     static const char *strs[3] = { "s10", "s20", "s30" };
     DynArray *xs = dyn_array_new((ElementType)TMPL_ELEM);
